@@ -9,7 +9,8 @@ Emboss/Spec/View.lean; lemmas: Emboss/Lemmas/{ExprMono,ViewMono,ViewMono2,Synth}
 import Emboss.Lemmas.ViewMono2
 import Emboss.Lemmas.Synth
 import Emboss.Lemmas.Locality
-import Emboss.Lemmas.ViewRef
+import Emboss.Lemmas.ViewRefArray
+import Emboss.Lemmas.SizeFolds
 namespace Emboss.View
 open Emboss.ViewSpec
 
@@ -128,6 +129,39 @@ expression. -/
 theorem C01_sizeCovers_of_plain (m : Module) (hm : moduleWF m = true) (sd : StructDef)
     (hwf : structWF m sd = true) (hp : plainSize sd) : SizeCovers m sd :=
   sizeCovers_of_plain hm hwf hp
+
+/-- `SizeCovers` reduced to C05's subject.  `SizeFoldsExact m sd` (Lemmas/SizeFolds.lean): whenever
+a view's partial environment gives the *annotated* `$size_in_*` expression the value `sz`, some
+completion of that environment gives the un-annotated synthesized expression the same `sz` — the
+content of `C05_constant_value_agrees` / `C05_size_bounds` (folded constants are exact in every
+environment whose leaves hold values of their physical types) on the bounds model.  Under it the
+hypothesis of `C01_ok_monotone_arrays_partial`, `C01_locality_partial`,
+`C20_equals_ignores_padding_partial` holds.  (Result of the round-3 check "can `SizeCovers` be
+discharged from `C05_sound`": not by a Lean theorem across the two models — different expression
+types, partial vs. total environments — but this is the exact interface.) -/
+theorem C01_sizeCovers_of_exact_folds (m : Module) (hm : moduleWF m = true) (sd : StructDef)
+    (hwf : structWF m sd = true) (h : SizeFoldsExact m sd) : SizeCovers m sd :=
+  sizeCovers_of_foldsExact hm hwf h
+
+/-- … and **discharged** for a decidable class of real IRs: if every constant-folding annotation
+in the structure's size expression and in its fields' conditions / locations is a *closed
+constant* (`structClosedFolds`, Model/Synth.lean: the annotated node's source expression
+evaluates to the literal in the environment that knows nothing — all-static structures and the
+static clauses of dynamic ones; not literals derived from a range), then `SizeCovers` holds.  The
+driver evaluates `structClosedFolds` on every structure of every real IR (`cov=` in the `IR`
+answer); for those structures `C01_ok_monotone_arrays_partial` & co. have no semantic hypothesis
+left. -/
+theorem C01_sizeCovers_of_closed_folds (m : Module) (hm : moduleWF m = true) (sd : StructDef)
+    (hwf : structWF m sd = true) (h : structClosedFolds sd = true) : SizeCovers m sd :=
+  sizeCovers_of_foldsExact hm hwf (sizeFoldsExact_of_closed h)
+
+/-- `Ok()` is prefix-monotone, arrays included, for every structure with closed-constant
+annotations — all hypotheses decidable and evaluated by the driver on the real IR. -/
+theorem C01_ok_monotone_closed_folds (m : Module) (hm : moduleWF m = true) (sd : StructDef)
+    (hsd : structWF m sd = true) (hcf : structClosedFolds sd = true) (ps : List Val) (b c : List Nat)
+    (n : Nat) :
+    (G m n).okAt (rootView sd ps b) [] = true → (G m n).okAt (rootView sd ps (b ++ c)) [] = true :=
+  C01_ok_monotone_arrays_partial m hm sd hsd (C01_sizeCovers_of_closed_folds m hm sd hsd hcf) ps b c n
 
 /-- More fuel never changes an answer that was already known (so the fuel the driver uses is
 immaterial once `fuelOK` holds). -/
@@ -277,6 +311,48 @@ example :
     isComplete (G exM 6) (rootView exSd [] [1, 5, 0, 9]) = true := by
   decide
 
+/-- The hypothesis `moduleWF` of the monotonicity theorems, as two decidable properties of the IR
+that the driver evaluates on **every real IR** (`IR` answer: `wf= csm= dyn=`):
+`moduleConstMatch` — a constant-size field holding a fixed-size bit-addressed type (prelude
+scalar, enum, `bits`: fixed size ≤ 64 bits by C14's checks) has exactly the type's size — is what
+the front end's `constraints.py` enforces (C14 model: `fixedWrongField`), and the harness requires
+it of every accepted module; `moduleNoDynFixed` — no such type sits in a field whose size is not a
+compile-time constant — is **not** enforced by the front end: that gap is exactly the open
+finding `monotone:fixed-size-type-in-dynamically-sized-field`
+(`C01_prefix_monotone_counterexample`), and the harness accepts `dyn=0` only for modules in which
+its independent IR walk finds such a field. -/
+theorem C01_moduleWF_iff (m : Module) :
+    moduleWF m = true ↔ (moduleConstMatch m = true ∧ moduleNoDynFixed m = true) := by
+  have hfield : ∀ unit f, fieldWF m unit f = (fieldConstMatch m unit f && fieldNoDynFixed m unit f) := by
+    intro unit f
+    unfold fieldWF fieldConstMatch fieldNoDynFixed fixedBitsIn
+    cases f.kind with
+    | alias t => rfl
+    | virt a b => rfl
+    | phys start size ty bo =>
+      cases ty with
+      | array a b => rfl
+      | scalar k bits req =>
+        by_cases hu : unit = 8
+        · cases hc : constInt? size <;> simp [hu, hc]
+        · simp [hu]
+      | struct name bits args =>
+        by_cases hu : unit = 8
+        · cases hfind : m.find name with
+          | none => simp [hu, hfind]
+          | some sd =>
+            by_cases hu' : sd.unit = 8
+            · simp [hu, hu', hfind]
+            · cases hc : constInt? size <;> simp [hu, hu', hfind, hc]
+        · simp [hu]
+  simp only [moduleWF, structWF, moduleConstMatch, moduleNoDynFixed, List.all_eq_true, hfield,
+    Bool.and_eq_true]
+  constructor
+  · intro h
+    exact ⟨fun sd hsd f hf => (h sd hsd f hf).1, fun sd hsd f hf => (h sd hsd f hf).2⟩
+  · intro ⟨h1, h2⟩ sd hsd f hf
+    exact ⟨h1 sd hsd f hf, h2 sd hsd f hf⟩
+
 /-- non-vacuity of `C01_ok_monotone_arrays_partial`: the example (which has a dynamically sized
 array) satisfies `SizeCovers`, is Ok on `01 05 00 09` and stays Ok with more bytes. -/
 example : SizeCovers exM exSd :=
@@ -321,63 +397,93 @@ open Emboss.ViewRef
 /-! ### the generated-code model refines the reference semantics R (Spec/ViewRef.lean)
 
 Full statement (DESIGN §7, `C01_G_refines_R`): for every accepted module, structure, parameters
-and buffer, every observation of `G` equals what the reference semantics R defines.  R is now a
-Lean object for its scalar / presence / size core: `RFact`, the least set of facts closed under
-the documented rules (no fuel, no storage model).  Proved for the fragment `flatStruct`: byte
-structures whose fields are `UInt`/`Int` scalars at possibly dynamic offsets, conditional
-fields, virtual fields, parameters and `[requires]`, without constant-folding annotations.
-Outside the fragment (nested structures, `bits`, arrays, aliases, BCD/Flag/enum leaves, folded
-definitions — where R is only a lower bound, D8) the comparison with R stays in Python
-(`embref.py`, every random case of every run). -/
+and buffer, every observation of `G` equals what the reference semantics R defines.  R is a Lean
+object: `RFact m w`, the least set of facts about a view closed under the documented rules (no
+fuel, no storage model).  Proved for the fragment `reachOK` (Model/ViewFrag.lean; round 3; round 2 had flat byte
+structures only): byte structures **and `bits` containers with sub-byte fields** (`Spec.bits o w x`
+of the container's number, the spec C02 is proved against), **nested at any depth** (a field of
+structure type at a dynamic offset with a dynamic size and run-time arguments: the facts of the
+inner structure over the sub-window), `UInt`/`Int`/`Flag`/unsigned-enum scalars in any byte
+order, conditional fields, virtual fields, **aliases**, parameters, `[requires]`; structures may
+contain arrays of scalars (their presence is inside the theorems, their elements are not reported
+through `read` — see `C01_array_*`).  All expressions without constant-folding annotations.
+Outside the fragment (BCD/Float/signed-enum leaves, arrays of structures, folded definitions —
+where R is only a lower bound, D8) the comparison with R stays in Python (`embref.py`, every
+random case of every run).  The theorems are stated for *every* view of the fragment (`viewWF`:
+a byte window for a `struct`, a number for a `bits`), the view over a message buffer
+(`rootView`) being the instance one starts from. -/
 
-/-- **G refines R** (soundness): whatever the generated view reports as known on a flat
-structure — a readable field with its value, a presence flag — is a fact of the reference
-semantics, at every fuel. -/
-theorem C01_G_refines_R_partial (m : Module) (sd : StructDef) (hflat : flatStruct sd = true)
-    (ps : List Val) (buf : List Nat) (n : Nat) :
-    (∀ p v, (G m n).read (rootView sd ps buf) p = some v → RFact sd ps buf (.val p v)) ∧
-    (∀ p b, (G m n).has (rootView sd ps buf) p = some b → RFact sd ps buf (.pres p b)) :=
-  G_sound m sd hflat ps buf n
+/-- **G refines R** (soundness): whatever the generated view reports as known — a readable
+field with its value, a presence flag, at any path into nested structures and `bits` — is a
+fact of the reference semantics, at every fuel.  Hypothesis `reachOK m d w.sd` (Model/ViewFrag.lean,
+decidable, evaluated by the driver on every structure of every real IR: `ref=`): the view's
+structure *and every structure reachable from it through fields of structure type* are inside
+the fragment — nothing is asked of the rest of the module.  (The lemmas are proved for any family
+of structures closed under "type of a field", `Closed`; `closed_of_refModule` is the module-wide
+instance.) -/
+theorem C01_G_refines_R_partial (m : Module) (w : SView) (d : Nat) (hfr : reachOK m d w.sd = true)
+    (hw : viewWF w = true) (n : Nat) :
+    (∀ p v, (G m n).read w p = some v → RFact m w (.val p v)) ∧
+    (∀ p b, (G m n).has w p = some b → RFact m w (.pres p b)) :=
+  G_sound m (closed_reach m) n w ⟨d, hfr⟩ hw
 
-/-- **R is reported by G** (completeness): every fact of the reference semantics about a flat
-structure (whose validators mention only `this` and parameters) is reported by the generated
-view once the fuel statically covers the field (`need`, what `fuelOK` checks on every real IR). -/
-theorem C01_R_reported_by_G_partial (m : Module) (sd : StructDef) (hflat : flatStruct sd = true)
-    (hloc : reqLocal sd = true) (ps : List Val) (buf : List Nat) (n : Nat) :
-    (∀ p v, RFact sd ps buf (.val p v) → need m n sd p = true →
-      (G m n).read (rootView sd ps buf) p = some v) ∧
-    (∀ p b, RFact sd ps buf (.pres p b) → need m n sd p = true →
-      (G m n).has (rootView sd ps buf) p = some b) :=
-  ⟨fun p v h => G_complete m sd hflat hloc ps buf n (.val p v) h,
-   fun p b h => G_complete m sd hflat hloc ps buf n (.pres p b) h⟩
+/-- **R is reported by G** (completeness): every fact of the reference semantics about a view of
+the fragment is reported by the generated view once the fuel statically covers the path (`need`,
+what `fuelOK` checks on every real IR).  `moduleWF` (decidable, checked by the driver on every
+real IR): see `C01_moduleWF_iff`. -/
+theorem C01_R_reported_by_G_partial (m : Module) (hwfm : moduleWF m = true) (w : SView) (d : Nat)
+    (hfr : reachOK m d w.sd = true) (hw : viewWF w = true) (n : Nat) :
+    (∀ p v, RFact m w (.val p v) → need m n w.sd p = true → (G m n).read w p = some v) ∧
+    (∀ p b, RFact m w (.pres p b) → need m n w.sd p = true → (G m n).has w p = some b) :=
+  ⟨fun p v h => G_complete m (closed_reach m) hwfm n w (.val p v) h ⟨d, hfr⟩ hw,
+   fun p b h => G_complete m (closed_reach m) hwfm n w (.pres p b) h ⟨d, hfr⟩ hw⟩
 
 /-- Together: with enough fuel the generated view and the reference agree exactly, value by
-value and presence by presence; in particular R is *functional* on the fragment (a field has at
-most one value, a presence at most one truth value) because `G` is a function. -/
-theorem C01_G_equals_R_partial (m : Module) (sd : StructDef) (hflat : flatStruct sd = true)
-    (hloc : reqLocal sd = true) (ps : List Val) (buf : List Nat) (n : Nat) (p : List String)
-    (hn : need m n sd p = true) :
-    (∀ v, (G m n).read (rootView sd ps buf) p = some v ↔ RFact sd ps buf (.val p v)) ∧
-    (∀ b, (G m n).has (rootView sd ps buf) p = some b ↔ RFact sd ps buf (.pres p b)) :=
-  ⟨fun v => ⟨(G_sound m sd hflat ps buf n).1 p v,
-             fun h => G_complete m sd hflat hloc ps buf n (.val p v) h hn⟩,
-   fun b => ⟨(G_sound m sd hflat ps buf n).2 p b,
-             fun h => G_complete m sd hflat hloc ps buf n (.pres p b) h hn⟩⟩
+value and presence by presence, at every path; in particular R is *functional* on the fragment (a
+field has at most one value, a presence at most one truth value) because `G` is a function. -/
+theorem C01_G_equals_R_partial (m : Module) (hwfm : moduleWF m = true) (w : SView) (d : Nat)
+    (hfr : reachOK m d w.sd = true) (hw : viewWF w = true) (n : Nat) (p : List String)
+    (hn : need m n w.sd p = true) :
+    (∀ v, (G m n).read w p = some v ↔ RFact m w (.val p v)) ∧
+    (∀ b, (G m n).has w p = some b ↔ RFact m w (.pres p b)) :=
+  ⟨fun v => ⟨(G_sound m (closed_reach m) n w ⟨d, hfr⟩ hw).1 p v,
+             fun h => G_complete m (closed_reach m) hwfm n w (.val p v) h ⟨d, hfr⟩ hw hn⟩,
+   fun b => ⟨(G_sound m (closed_reach m) n w ⟨d, hfr⟩ hw).2 p b,
+             fun h => G_complete m (closed_reach m) hwfm n w (.pres p b) h ⟨d, hfr⟩ hw hn⟩⟩
 
 /-- "The size is the largest end of any present field", on the reference: if R gives the
-synthesised size field (`$size_in_bytes = synthSize fields`, cf. `sizeIsSynth`) the value `r`,
-then there is an assignment `ρ` consisting of R-facts only under which `r` is `ViewSpec.size` of
-the fields' extents — the largest `start + size` over the fields R says are present, all of
-whose presences and locations R knows. -/
-theorem C01_R_size_is_max_end_partial (sd : StructDef) (ps : List Val) (buf : List Nat)
-    (fs : List Field) (hfs : fs.all flatField = true) (x : String) (f : Field)
-    (hf : sd.field x = some f) (hk : f.kind = .virt (synthSize fs) none) (r : Int)
-    (h : RFact sd ps buf (.val [x] (.int r))) :
-    ∃ ρ : Env, (∀ p v, ρ.read p = some v → RFact sd ps buf (.val p v)) ∧
-      (∀ p c, ρ.has p = some c → RFact sd ps buf (.pres p c)) ∧
+synthesised size field (`$size_in_bytes = synthSize fields`, cf. `sizeIsSynth`) of any view — a
+nested structure or a `bits` container included — the value `r`, then there is an assignment `ρ`
+consisting of R-facts only under which `r` is `ViewSpec.size` of the fields' extents — the largest
+`start + size` over the fields R says are present, all of whose presences and locations R knows. -/
+theorem C01_R_size_is_max_end_partial (m : Module) (w : SView)
+    (fs : List Field) (hfs : fs.all locFoldFree = true) (x : String) (f : Field)
+    (hf : w.sd.field x = some f) (hk : f.kind = .virt (synthSize fs) none) (r : Int)
+    (h : RFact m w (.val [x] (.int r))) :
+    ∃ ρ : Env, (∀ p v, ρ.read p = some v → RFact m w (.val p v)) ∧
+      (∀ p c, ρ.has p = some c → RFact m w (.pres p c)) ∧
       ViewSpec.size (extents ρ fs) = some r := by
   cases h with
   | scalar ρ hf' hk' => rw [hf] at hf'; cases hf'; rw [hk] at hk'; cases hk'
+  | aliasVal hf' hk' => rw [hf] at hf'; cases hf'; rw [hk] at hk'; cases hk'
+  | sub ρ hf' hk' hfind hpres hr hh hp hl hs hz hs0 hz0 hargs hsub hout =>
+    rename_i inner
+    cases inner with
+    | val p v =>
+      simp only [Fact.under, Option.some.injEq, Fact.val.injEq, List.cons.injEq] at hout
+      obtain ⟨⟨_, hp'⟩, _⟩ := hout
+      subst hp'
+      exact (val_path_ne_nil hsub).elim
+    | _ => simp [Fact.under] at hout
+  | nullsub hf' hk' hfind hsub hout =>
+    rename_i inner
+    cases inner with
+    | val p v =>
+      simp only [Fact.under, Option.some.injEq, Fact.val.injEq, List.cons.injEq] at hout
+      obtain ⟨⟨_, hp'⟩, _⟩ := hout
+      subst hp'
+      exact (val_path_ne_nil hsub).elim
+    | _ => simp [Fact.under] at hout
   | virt ρ hf' hk' hr hh hp hl hv hreq =>
     rw [hf] at hf'; cases hf'
     rw [hk] at hk'; cases hk'
@@ -386,6 +492,35 @@ theorem C01_R_size_is_max_end_partial (sd : StructDef) (ps : List Val) (buf : Li
     cases hsz : ViewSpec.size (extents ρ fs) with
     | none => rw [hsz] at hv; cases hv
     | some q => rw [hsz] at hv; simp only [Option.map_some, Option.some.injEq, Val.int.injEq] at hv; rw [hv]
+
+/-- **Arrays of scalars** (constant or dynamic size / element count), soundness: every element
+the generated view reads (`x()[i].Ok()`, `i < ElementCount()`; also in a truncated array) is an
+`elem` fact of R — the value of the element's bytes at `start + i·elementsize` of the message —
+and when the accessor's storage was not clamped (the array's whole extent is inside the window)
+`ElementCount()` is R's `count` fact `size / elementsize`.  (`arrElem` / `arrCount`,
+Model/ViewObs.lean, are the expressions `obsType` prints per element and as `n<count>`.) -/
+theorem C01_array_refines_R_partial (m : Module) (w : SView) (d : Nat)
+    (hfr : reachOK m d w.sd = true) (hw : viewWF w = true) (n : Nat) (x : String) (f : Field)
+    (hf : w.sd.field x = some f) :
+    (∀ i v, arrElem (G m n) w f i = some v → RFact m w (.elem x i v)) ∧
+    (∀ start size k bits req es bo c st z,
+      f.kind = .phys start size (.array (.scalar k bits req) es) bo →
+      arrCount (G m n) w f = some c → physStorage (G m n) w f start size = some st →
+      evalInt (envOf (G m n) w none) size = some z → st.ok = true ∧ st.size = z.toNat →
+      RFact m w (.count x c)) :=
+  have href := (closed_reach m).ref _ ⟨d, hfr⟩
+  have hfacts := G_sound m (closed_reach m) n w ⟨d, hfr⟩ hw
+  ⟨fun _ _ h => arrElem_sound href hw hfacts hf h,
+   fun _ _ _ _ _ _ _ _ _ _ hk h hst hz hfull => arrCount_sound href hw hfacts hf hk h hst hz hfull⟩
+
+/-- … and completeness: R's `count` and `elem` facts are what the generated view reports once
+the fuel covers the field. -/
+theorem C01_R_array_reported_by_G_partial (m : Module) (hwfm : moduleWF m = true) (w : SView) (d : Nat)
+    (hfr : reachOK m d w.sd = true) (hw : viewWF w = true) (n : Nat)
+    (x : String) (f : Field) (hf : w.sd.field x = some f) (hn : need m (n + 1) w.sd [x] = true) :
+    (∀ c, RFact m w (.count x c) → arrCount (G m n) w f = some c) ∧
+    (∀ i v, RFact m w (.elem x i v) → arrElem (G m n) w f i = some v) :=
+  array_complete m (closed_reach m) hwfm n w ⟨d, hfr⟩ hw hf hn
 
 /-- `C01_constants` (partial): `$max_size_in_*` / `$min_size_in_*` (and every other virtual field
 whose value the compiler folded to a literal, without `[requires]`) read the same constant on
@@ -428,30 +563,131 @@ def exFlat : StructDef :=
   { name := "Flat", unit := 8, params := ["p"], requires := none, sizeField := "$size",
     fields := exFlatPhys ++ [exFlatSize] }
 
-/-- non-vacuity of the three refinement theorems: the example is inside the fragment, fuel 4
-covers every field, and on `01 00 fe` (n = 1, y at offset 2 = -2) the model computes
-`v = y + p = 5` for `p = 7`, the size 3, and `y` absent for `n = 0`. -/
+/-- `bits Bf: 0 [+1] Flag a / 1 [+3] UInt b / 4 [+4] Int c` -/
+def exBits : StructDef :=
+  { name := "Bf", unit := 1, params := [], requires := none, sizeField := "$size",
+    fields :=
+      [ { name := "a", anon := false, cond := .const (.bool true),
+          kind := .phys (.const (.int 0)) (.const (.int 1)) (.scalar .flag 1 none) .null },
+        { name := "b", anon := false, cond := .const (.bool true),
+          kind := .phys (.const (.int 1)) (.const (.int 3)) (.scalar .uint 3 none) .null },
+        { name := "c", anon := false, cond := .const (.bool true),
+          kind := .phys (.const (.int 4)) (.const (.int 4)) (.scalar .int 4 none) .null } ] }
+
+/-- `struct In(p: UInt:8): 0 [+1] UInt k / 1 [+1] Bf fl / let s = k + p / let cc = fl.c / let one = 1 /
+`$size_in_bytes = ⟨2⟩ $max(0, true ? 0+1 : 0, true ? 1+1 : 0)` (annotated by the compiler) -/
+def exInner : StructDef :=
+  { name := "In", unit := 8, params := ["p"], requires := none, sizeField := "$size",
+    fields :=
+      [ { name := "k", anon := false, cond := .const (.bool true),
+          kind := .phys (.const (.int 0)) (.const (.int 1)) (.scalar .uint 8 none) .le },
+        { name := "fl", anon := false, cond := .const (.bool true),
+          kind := .phys (.const (.int 1)) (.const (.int 1)) (.struct "Bf" 8 .nil) .le },
+        { name := "s", anon := false, cond := .const (.bool true),
+          kind := .virt (.op .add (.cons (.ref ["k"]) (.cons (.param "p") .nil))) none },
+        { name := "cc", anon := false, cond := .const (.bool true), kind := .alias ["fl", "c"] },
+        { name := "one", anon := false, cond := .const (.bool true), kind := .virt (.const (.int 1)) none },
+        -- the compiler's annotation on an all-static size: a closed constant, inside the fragment
+        { name := "$size", anon := false, cond := .const (.bool true),
+          kind := .virt (.fold (.int 2) (.op .max (.cons (.const (.int 0))
+            (.cons (sizeClause (.const (.bool true)) (.const (.int 0)) (.const (.int 1)))
+              (.cons (sizeClause (.const (.bool true)) (.const (.int 1)) (.const (.int 1))) .nil))))) none } ] }
+
+/-- `struct Out: 0 [+1] UInt n / if n > 0: n [+2] In(n) in / let v = in.s / n+2 [+n] UInt:8[] arr` -/
+def exOuterN : Field :=
+  { name := "n", anon := false, cond := .const (.bool true),
+    kind := .phys (.const (.int 0)) (.const (.int 1)) (.scalar .uint 8 none) .le }
+
+def exOuter : StructDef :=
+  { name := "Out", unit := 8, params := [], requires := none, sizeField := "$size",
+    fields :=
+      [ exOuterN,
+        { name := "in", anon := false, cond := .op .gt (.cons (.ref ["n"]) (.cons (.const (.int 0)) .nil)),
+          kind := .phys (.ref ["n"]) (.const (.int 2)) (.struct "In" 0 (.cons (.ref ["n"]) .nil)) .le },
+        { name := "v", anon := false, cond := .const (.bool true), kind := .virt (.ref ["in", "s"]) none },
+        { name := "arr", anon := false, cond := .const (.bool true),
+          kind := .phys (.op .add (.cons (.ref ["n"]) (.cons (.const (.int 2)) .nil))) (.ref ["n"])
+            (.array (.scalar .uint 8 none) 1) .le } ] }
+
+def exNest : Module := { structs := [exOuter, exInner, exBits, exFlat] }
+
+/-- non-vacuity of the refinement theorems: the module (a structure with a conditional nested
+parameterised structure at a dynamic offset, which contains a `bits` container with a flag, a
+3-bit unsigned and a 4-bit signed field, an alias into it, a virtual field over a parameter; an
+array of scalars; and the flat example of round 2) is inside the fragment, fuel 6 covers the
+paths, and on `02 ff 07 a5` (n = 2; `in` = `07 a5`: k = 7, fl = 0xa5: a = 1, b = 2, c = -6) the
+model computes `in.s = 9 = v`, `in.fl.c = -6 = in.cc`; with `n = 0` the inner structure is absent
+but its constant `one` still reads 1 (null view). -/
 example :
-    flatStruct exFlat = true ∧ reqLocal exFlat = true ∧ exFlatPhys.all flatField = true ∧
-    need { structs := [exFlat] } 4 exFlat ["v"] = true ∧
-    need { structs := [exFlat] } 4 exFlat ["$size"] = true ∧
-    (G { structs := [exFlat] } 4).read (rootView exFlat [.int 7] [1, 0, 254]) ["v"] = some (.int 5) ∧
-    (G { structs := [exFlat] } 4).read (rootView exFlat [.int 7] [1, 0, 254]) ["$size"] = some (.int 3) ∧
-    (G { structs := [exFlat] } 4).has (rootView exFlat [.int 7] [0]) ["y"] = some false ∧
-    (G { structs := [exFlat] } 4).read (rootView exFlat [.int 7] [1, 0]) ["y"] = none := by
+    reachOK exNest 4 exOuter = true ∧ reachOK exNest 4 exFlat = true ∧ moduleWF exNest = true ∧
+    structInFragment exNest exOuter = true ∧
+    viewWF (rootView exOuter [] [2, 255, 7, 165]) = true ∧
+    need exNest 6 exOuter ["in", "fl", "c"] = true ∧ need exNest 6 exOuter ["v"] = true ∧
+    (G exNest 6).read (rootView exOuter [] [2, 255, 7, 165]) ["in", "fl", "c"] = some (.int (-6)) ∧
+    (G exNest 6).read (rootView exOuter [] [2, 255, 7, 165]) ["in", "fl", "a"] = some (.bool true) ∧
+    (G exNest 6).read (rootView exOuter [] [2, 255, 7, 165]) ["in", "fl", "b"] = some (.int 2) ∧
+    (G exNest 6).read (rootView exOuter [] [2, 255, 7, 165]) ["in", "cc"] = some (.int (-6)) ∧
+    (G exNest 6).read (rootView exOuter [] [2, 255, 7, 165]) ["v"] = some (.int 9) ∧
+    (G exNest 6).read (rootView exOuter [] [2, 255, 7]) ["in", "fl", "c"] = none ∧
+    (G exNest 6).read (rootView exOuter [] [2, 255, 7]) ["in", "k"] = some (.int 7) ∧
+    (G exNest 6).has (rootView exOuter [] [0]) ["in"] = some false ∧
+    (G exNest 6).read (rootView exOuter [] [0]) ["in", "one"] = some (.int 1) ∧
+    (G exNest 6).read (rootView exOuter [] [0]) ["in", "k"] = none ∧
+    need exNest 6 exOuter ["in", "$size"] = true ∧
+    (G exNest 6).read (rootView exOuter [] [0]) ["in", "$size"] = some (.int 2) ∧
+    need exNest 4 exFlat ["v"] = true ∧
+    (G exNest 4).read (rootView exFlat [.int 7] [1, 0, 254]) ["v"] = some (.int 5) ∧
+    (G exNest 4).read (rootView exFlat [.int 7] [1, 0, 254]) ["$size"] = some (.int 3) ∧
+    (G exNest 4).has (rootView exFlat [.int 7] [0]) ["y"] = some false ∧
+    (G exNest 4).read (rootView exFlat [.int 7] [1, 0]) ["y"] = none := by
   decide
 
-/-- … hence these are facts of R (derived through the theorem, not by hand), and R's size fact
-is the largest end of a present field. -/
-example : RFact exFlat [.int 7] [1, 0, 254] (.val ["v"] (.int 5)) ∧
-    RFact exFlat [.int 7] [0] (.pres ["y"] false) ∧
+/-- … hence these are facts of R (derived through the theorem, not by hand) — a sub-byte field of
+a `bits` container inside a nested structure at a dynamic offset; a fact below an absent field —
+and R's size fact is the largest end of a present field. -/
+example : RFact exNest (rootView exOuter [] [2, 255, 7, 165]) (.val ["in", "fl", "c"] (.int (-6))) ∧
+    RFact exNest (rootView exOuter [] [0]) (.val ["in", "one"] (.int 1)) ∧
+    RFact exNest (rootView exFlat [.int 7] [1, 0, 254]) (.val ["v"] (.int 5)) ∧
+    RFact exNest (rootView exFlat [.int 7] [0]) (.pres ["y"] false) ∧
     ∃ ρ : Env, ViewSpec.size (extents ρ exFlatPhys) = some 3 := by
-  refine ⟨(C01_G_refines_R_partial { structs := [exFlat] } exFlat (by decide) _ _ 4).1 _ _ (by decide),
-    (C01_G_refines_R_partial { structs := [exFlat] } exFlat (by decide) _ _ 4).2 _ _ (by decide), ?_⟩
-  obtain ⟨ρ, _, _, h⟩ := C01_R_size_is_max_end_partial exFlat [.int 7] [1, 0, 254] exFlatPhys (by decide)
-    "$size" exFlatSize (by rfl) rfl 3
-    ((C01_G_refines_R_partial { structs := [exFlat] } exFlat (by decide) _ _ 4).1 _ _ (by decide))
+  refine ⟨(C01_G_refines_R_partial exNest _ 4 (by decide) (by decide) 6).1 _ _ (by decide),
+    (C01_G_refines_R_partial exNest _ 4 (by decide) (by decide) 6).1 _ _ (by decide),
+    (C01_G_refines_R_partial exNest _ 4 (by decide) (by decide) 4).1 _ _ (by decide),
+    (C01_G_refines_R_partial exNest _ 4 (by decide) (by decide) 4).2 _ _ (by decide), ?_⟩
+  obtain ⟨ρ, _, _, h⟩ := C01_R_size_is_max_end_partial exNest (rootView exFlat [.int 7] [1, 0, 254])
+    exFlatPhys (by decide) "$size" exFlatSize (by rfl) rfl 3
+    ((C01_G_refines_R_partial exNest _ 4 (by decide) (by decide) 4).1 _ _ (by decide))
   exact ⟨ρ, h⟩
+
+/-- and conversely (completeness): an R-fact derived by hand — `n` is present, by the `pres` rule
+with the empty assignment — is reported by the model. -/
+example : (G exNest 6).has (rootView exOuter [] [2, 255, 7, 165]) ["n"] = some true :=
+  (C01_R_reported_by_G_partial exNest (by decide) _ 4 (by decide) (by decide) 6).2 _ _
+    (RFact.pres { read := fun _ => none, has := fun _ => none, param := fun _ => none, lv := none }
+      (f := exOuterN) (by rfl) (by intro p v h; cases h) (by intro p c h; cases h)
+      (by intro n v h; cases h) rfl (by decide)) (by decide)
+
+def exOuterArr : Field :=
+  { name := "arr", anon := false, cond := .const (.bool true),
+    kind := .phys (.op .add (.cons (.ref ["n"]) (.cons (.const (.int 2)) .nil))) (.ref ["n"])
+      (.array (.scalar .uint 8 none) 1) .le }
+
+/-- non-vacuity of the array theorems: `arr` (`n+2 [+n] UInt:8[]`, dynamic element count) over
+`02 ff 07 a5 0b 0c` has 2 elements 11, 12; over the truncated `02 ff 07 a5 0b` the model still
+reads element 0 (= 11, an R fact by the theorem) and reports the clamped count 1, which is *not*
+claimed by R (the count hypothesis `st.size = z` fails). -/
+example :
+    exOuter.field "arr" = some exOuterArr ∧ need exNest 6 exOuter ["arr"] = true ∧
+    arrCount (G exNest 5) (rootView exOuter [] [2, 255, 7, 165, 11, 12]) exOuterArr = some 2 ∧
+    arrElem (G exNest 5) (rootView exOuter [] [2, 255, 7, 165, 11, 12]) exOuterArr 1 = some (.int 12) ∧
+    arrElem (G exNest 5) (rootView exOuter [] [2, 255, 7, 165, 11, 12]) exOuterArr 2 = none ∧
+    arrCount (G exNest 5) (rootView exOuter [] [2, 255, 7, 165, 11]) exOuterArr = some 1 ∧
+    arrElem (G exNest 5) (rootView exOuter [] [2, 255, 7, 165, 11]) exOuterArr 0 = some (.int 11) := by
+  refine ⟨by rfl, by decide, by decide, by decide, by decide, by decide, by decide⟩
+
+example : RFact exNest (rootView exOuter [] [2, 255, 7, 165, 11]) (.elem "arr" 0 (.int 11)) :=
+  (C01_array_refines_R_partial exNest _ 4 (by decide) (by decide) 5 "arr" exOuterArr (by rfl)).1
+    _ _ (by decide)
 
 end Emboss.View
 
@@ -480,6 +716,33 @@ theorem C01_prefix_monotone_counterexample :
     moduleWF cexM = false ∧
     (G cexM 4).read (rootView cexSd [] [5, 7]) ["x"] = some (.int 7) ∧
     (G cexM 4).read (rootView cexSd [] ([5, 7] ++ [9])) ["x"] = none := by
+  decide
+
+/-- C01's example with the annotation the compiler puts on the static first clause of its size
+expression: `$max(0, ⟨1⟩(true ? 0+1 : 0), tag == 1 ? 1+2 : 0, true ? 3+tag : 0)`. -/
+def exFoldSd : StructDef :=
+  { exSd with fields := exPhys ++
+      [ { name := "$size", anon := false, cond := .const (.bool true),
+          kind := .virt (.op .max (.cons (.const (.int 0))
+            (.cons (.fold (.int 1) (sizeClause (.const (.bool true)) (.const (.int 0)) (.const (.int 1))))
+              (sizeClauses (exPhys.drop 1))))) none } ] }
+
+/-- non-vacuity of `C01_sizeCovers_of_closed_folds` / `C01_ok_monotone_closed_folds`: the
+annotated example is in the decidable class (and not `plainSize`: it has an annotation), so
+`SizeCovers` holds for it and `Ok()` on `01 05 00 09` persists. -/
+example : structClosedFolds exFoldSd = true ∧ moduleWF { structs := [exFoldSd] } = true ∧
+    structWF { structs := [exFoldSd] } exFoldSd = true ∧
+    (G { structs := [exFoldSd] } 6).okAt (rootView exFoldSd [] [1, 5, 0, 9]) [] = true := by
+  decide
+
+example : SizeCovers { structs := [exFoldSd] } exFoldSd :=
+  C01_sizeCovers_of_closed_folds _ (by decide) _ (by decide) (by decide)
+
+/-- non-vacuity of `C01_moduleWF_iff`: C01's example module satisfies both parts; the
+counterexample of the open finding satisfies the part the front end enforces and fails only the
+other one. -/
+example : moduleConstMatch exM = true ∧ moduleNoDynFixed exM = true ∧
+    moduleConstMatch cexM = true ∧ moduleNoDynFixed cexM = false := by
   decide
 
 end Emboss.View
